@@ -394,3 +394,65 @@ fn parse_line(t: &str) -> Option<Line> {
     };
     Some(Line { start: u64::from_str_radix(s, 16).ok()?, end: u64::from_str_radix(e, 16).ok()?, perms, offset: u64::from_str_radix(off, 16).ok()?, name })
 }
+
+
+/// Live clause: the mapping list a dumper derives from a REAL target, under every combination of
+/// caller-supplied auxiliary-vector values (each of AT_PHNUM, AT_PHDR, AT_SYSINFO_EHDR, AT_ENTRY
+/// supplied with its true value or left for the writer to fetch from the kernel). Whatever the
+/// caller supplies, the mapping that starts at the vDSO address the auxiliary vector reports
+/// must carry the Linux gate name, and the list must be ascending and cover every map line.
+pub fn run_live(rep: &mut Report, thorough: bool) {
+    use crate::target::Target;
+    use crate::tspec::*;
+    use minidump_writer::minidump_writer::DirectAuxvDumpInfo;
+    use minidump_writer::ptrace_dumper::PtraceDumper;
+    let mut rng = crate::rng::Rng::new(rep.seed.wrapping_mul(131_313));
+    for _ in 0..(if thorough { 20 } else { 2 }) {
+        let mut b = Builder::new();
+        b.sentinel(&mut rng, Mode::Pause, &StackShape::default(), None, None);
+        let t = match Target::spawn(b.spec.clone(), &b.opts) {
+            Ok(t) => t,
+            Err(e) => {
+                rep.inconclusive(format!("target did not start: {e}"));
+                continue;
+            }
+        };
+        let m = t.manifest.clone();
+        if m.at_sysinfo_ehdr == 0 {
+            rep.note("target has no vDSO: live clause skipped");
+            continue;
+        }
+        for mask in 0..16u32 {
+            let info = DirectAuxvDumpInfo {
+                program_header_count: if mask & 1 != 0 { m.at_phnum } else { 0 },
+                program_header_address: if mask & 2 != 0 { m.at_phdr } else { 0 },
+                linux_gate_address: if mask & 4 != 0 { m.at_sysinfo_ehdr } else { 0 },
+                entry_address: if mask & 8 != 0 { m.at_entry } else { 0 },
+            };
+            let dumper = match PtraceDumper::new_report_soft_errors(t.pid, std::time::Duration::from_secs(10), info.into(), error_graph::strategy::DontCare) {
+                Ok(d) => d,
+                Err(e) => {
+                    rep.violation("C13 live: dumper could not be created on a healthy target", json!({"supplied_mask": mask, "error": format!("{e:?}")}));
+                    continue;
+                }
+            };
+            rep.case(crate::rng::fnv(format!("live/{mask}").as_bytes()), true);
+            rep.count("live_mapping_lists_checked", 1);
+            let gate = dumper.mappings.iter().find(|mp| mp.start_address as u64 == m.at_sysinfo_ehdr);
+            let name = gate.and_then(|g| g.name.as_ref().map(|n| n.to_string_lossy().into_owned()));
+            if name.as_deref() != Some("linux-gate.so") {
+                rep.violation("C13 live: the mapping at the vDSO address is not named as the Linux gate library", json!({"supplied": {"phnum": mask & 1 != 0, "phdr": mask & 2 != 0, "gate": mask & 4 != 0, "entry": mask & 8 != 0}, "name": name, "vdso": format!("{:#x}", m.at_sysinfo_ehdr)}));
+            }
+            // every map line inside exactly one derived mapping
+            for l in t.maps() {
+                let holders = dumper.mappings.iter().filter(|mp| mp.start_address as u64 <= l.start && l.end <= (mp.start_address + mp.size) as u64).count();
+                if holders != 1 {
+                    rep.violation("C13 live: a line of the target's memory map is not inside exactly one derived mapping", json!({"line": format!("{:x}-{:x} {} {}", l.start, l.end, l.perms, l.name), "holders": holders}));
+                    break;
+                }
+            }
+            drop(dumper);
+        }
+    }
+    rep.require("live_mapping_lists_checked", 16);
+}
